@@ -1,4 +1,189 @@
 package main
 
-// thoroughExtras adds thorough-tier cross references to the evidence.
-func thoroughExtras(r *runResult) {}
+// Thorough tier: everything the quick tier does in four build
+// configurations, plus (a) mutation self-validation — every seeded change of
+// /verif/seeded that targets this property is applied to a scratch copy of
+// /repo's working tree (outside /repo and /verif, removed afterwards) and the
+// property's rules must report it — and (b) a cross-reference of engine B
+// against the Go compiler's own bounds-check elimination.
+
+import (
+	"encoding/json"
+	"fmt"
+	"os"
+	"os/exec"
+	"path/filepath"
+	"regexp"
+	"sort"
+	"strings"
+)
+
+type seedMeta struct {
+	ID       string `json:"id"`
+	Property string `json:"property"`
+}
+
+// scratchCopy materialises /repo's tracked + modified working tree files in a
+// fresh temporary directory.
+func scratchCopy(repo string) (string, error) {
+	dir, err := os.MkdirTemp("", "cbgp-scratch-")
+	if err != nil {
+		return "", err
+	}
+	err = filepath.Walk(repo, func(path string, info os.FileInfo, err error) error {
+		if err != nil {
+			return err
+		}
+		rel, _ := filepath.Rel(repo, path)
+		if info.IsDir() {
+			if info.Name() == ".git" {
+				return filepath.SkipDir
+			}
+			return os.MkdirAll(filepath.Join(dir, rel), 0o755)
+		}
+		b, err := os.ReadFile(path)
+		if err != nil {
+			return err
+		}
+		return os.WriteFile(filepath.Join(dir, rel), b, 0o644)
+	})
+	if err != nil {
+		os.RemoveAll(dir)
+		return "", err
+	}
+	return dir, nil
+}
+
+func thoroughExtras(r *runResult) {
+	r.Extra["mutation_self_validation"] = mutationSelfValidation(r)
+	switch r.ID {
+	case "C05", "C15", "C16", "C18", "C19":
+		r.Extra["compiler_bce_cross_reference"] = bceCrossReference(r)
+	}
+}
+
+// mutationSelfValidation applies the seeded changes for this property.
+func mutationSelfValidation(r *runResult) map[string]interface{} {
+	out := map[string]interface{}{}
+	seedDir := filepath.Join(verifDir(), "seeded")
+	ents, err := os.ReadDir(seedDir)
+	if err != nil {
+		out["error"] = err.Error()
+		return out
+	}
+	f := ruleFns[r.ID]
+	var killed, missed, skipped []string
+	for _, e := range ents {
+		mb, err := os.ReadFile(filepath.Join(seedDir, e.Name(), "meta.json"))
+		if err != nil {
+			continue
+		}
+		var m seedMeta
+		if json.Unmarshal(mb, &m) != nil || m.Property != r.ID {
+			continue
+		}
+		dir, err := scratchCopy(repoDir())
+		if err != nil {
+			skipped = append(skipped, e.Name()+": "+err.Error())
+			continue
+		}
+		cmd := exec.Command("patch", "-p1", "-s", "-i", filepath.Join(seedDir, e.Name(), "patch.diff"))
+		cmd.Dir = dir
+		if outp, err := cmd.CombinedOutput(); err != nil {
+			skipped = append(skipped, e.Name()+": patch does not apply to the current tree ("+trunc(string(outp), 80)+")")
+			os.RemoveAll(dir)
+			continue
+		}
+		p, err := Load(dir, BuildConfig{GOOS: "linux", GOARCH: "amd64"})
+		if err != nil {
+			skipped = append(skipped, e.Name()+": "+trunc(err.Error(), 120))
+			os.RemoveAll(dir)
+			continue
+		}
+		c := newCheck(r.ID, p)
+		func() {
+			defer func() {
+				if rec := recover(); rec != nil {
+					c.undecided(r.ID+".checker", "", "analyser-panic", "-", fmt.Sprint(rec))
+				}
+			}()
+			f(c)
+		}()
+		c.anchors()
+		known := loadKnown()
+		bad := 0
+		var first string
+		for _, o := range c.Obls {
+			if o.Status == "ok" || matchKnown(known, r.ID, o) != nil {
+				continue
+			}
+			bad++
+			if first == "" {
+				first = o.Rule + " @ " + o.Fn
+			}
+		}
+		if bad > 0 {
+			killed = append(killed, fmt.Sprintf("%s (%d reports, first: %s)", e.Name(), bad, first))
+		} else {
+			missed = append(missed, e.Name())
+		}
+		os.RemoveAll(dir)
+	}
+	sort.Strings(killed)
+	out["seeded_changes_reported"] = killed
+	out["seeded_changes_missed"] = missed
+	out["seeded_changes_skipped"] = skipped
+	out["note"] = "development-time validation of the rules against independently written regressions; a missed change does not affect the verdict on /repo"
+	return out
+}
+
+// bceCrossReference compares the compiler's unproven bounds checks (non
+// generic code only) with engine B's obligations at the same positions.
+func bceCrossReference(r *runResult) map[string]interface{} {
+	out := map[string]interface{}{}
+	tmp, err := os.MkdirTemp("", "cbgp-bce-")
+	if err != nil {
+		out["error"] = err.Error()
+		return out
+	}
+	defer os.RemoveAll(tmp)
+	cmd := exec.Command("go", "build", "-a", "-gcflags=-d=ssa/check_bce/debug=1", "-o", filepath.Join(tmp, "pkg.a"), ".")
+	cmd.Dir = repoDir()
+	cmd.Env = append(loadEnv(BuildConfig{GOOS: "linux", GOARCH: "amd64"}), "GOCACHE="+filepath.Join(tmp, "cache"))
+	b, _ := cmd.CombinedOutput()
+	re := regexp.MustCompile(`(?m)^\./([a-z_0-9]+\.go):(\d+):(\d+): Found (\w+)`)
+	type pos struct {
+		file string
+		line string
+	}
+	unproven := map[pos]string{}
+	for _, m := range re.FindAllStringSubmatch(string(b), -1) {
+		unproven[pos{m[1], m[2]}] = m[4]
+	}
+	ours := map[pos]string{}
+	for _, c := range r.Checks {
+		for _, o := range c.Obls {
+			if !strings.Contains(o.Rule, " index") && !strings.Contains(o.Rule, " slice") {
+				continue
+			}
+			fl := strings.SplitN(strings.TrimSuffix(o.Pos, "~"), ":", 2)
+			if len(fl) == 2 {
+				ours[pos{fl[0], fl[1]}] = o.Status
+			}
+		}
+	}
+	covered, uncovered := 0, []string{}
+	for p := range unproven {
+		if st, ok := ours[p]; ok && st == "ok" {
+			covered++
+		} else if !ok {
+			uncovered = append(uncovered, p.file+":"+p.line)
+		}
+	}
+	sort.Strings(uncovered)
+	out["compiler_unproven_checks"] = len(unproven)
+	out["of_which_discharged_by_engine_B_at_same_line"] = covered
+	out["compiler_unproven_without_engine_B_obligation_in_this_property"] = uncovered
+	out["note"] = "cross-reference only, never a verdict: the compiler's prove pass sees neither generic bodies nor caller premises; obligations of other properties' function sets are not listed here"
+	return out
+}
